@@ -40,7 +40,8 @@ def sources(case):
 
 def bad_runtime(obs):
     return (obs.startswith("PANIC") or obs.startswith("ABORT") or obs.startswith("TIMEOUT") or "PANIC" in obs
-            or "STRINGIFY-DISAGREE" in obs or "VALUE-EQ-NOT-REFLEXIVE" in obs or "ARGS-COLLECT-DISAGREE" in obs)
+            or "STRINGIFY-DISAGREE" in obs or "VALUE-EQ-NOT-REFLEXIVE" in obs or "ARGS-COLLECT-DISAGREE" in obs
+            or "ARGS-INSERT-DISAGREE" in obs)
 
 
 SPEC_RE = re.compile(r" S (\S+) \[([^\]]*)\]")
